@@ -681,6 +681,33 @@ func runC06(p *core.Prog, r *core.Report) {
 			return "reset-object-cursor", ok && core.FieldAddrName(fa) == "("+mb+"Cursor).lastObjectID"
 		}})
 	}
+	// ---------------- R5 a container's removal is always recorded
+	r5 := r.Rule("C06.R5", "DB.InhumeContainer's transaction succeeds only after the container's removal mark was written: the removal is remembered even when the shard holds nothing of the container yet, so objects arriving later are refused and never listed", 1)
+	found := false
+	if ic := p.Func(mbDB + "InhumeContainer"); ic != nil {
+		for _, tx := range ic.AnonFuncs {
+			if len(tx.Params) != 1 || !strings.HasSuffix(tx.Params[0].Type().String(), "bbolt.Tx") {
+				continue
+			}
+			found = true
+			mark := core.Guard{Name: "removal-mark-written", Match: func(s core.Site) bool {
+				if s.Name != "(*github.com/nspcc-dev/bbolt.Bucket).Put" {
+					return false
+				}
+				u, ok := s.Call.Common().Args[1].(*ssa.UnOp)
+				if !ok {
+					return false
+				}
+				g, isG := u.X.(*ssa.Global)
+				return isG && g.Name() == "containerGCMarkKey"
+			}, Comps: []core.Comp{{Result: -1, Kind: core.ErrNil}}}
+			core.CheckSuccessFn(p, r5, tx, core.SuccessRule{ResultIdx: -1, MinReturns: 1, Guards: []core.Guard{mark}})
+		}
+	}
+	if !found {
+		r.Fatalf("C06.R5: DB.InhumeContainer's transaction not found")
+	}
+	r.Explain += " (R5) DB.InhumeContainer's transaction reports success only after it has written the container's removal mark, whether or not the shard already holds something of that container: a removal that is not remembered lets objects that arrive later be indexed and listed."
 	// ---------------- R4 the engine merges every shard's page
 	r4 := r.Rule("C06.R4", "StorageEngine.ListWithCursor merges every non-empty shard page: from the shard's listing call to the next shard the only ways around the merge are 'the shard failed' and 'its page is empty'; every shard gets the same start cursor", 2)
 	if el := p.Func("(*pkg/local_object_storage/engine.StorageEngine).ListWithCursor"); el == nil {
